@@ -513,3 +513,37 @@ def run(index, rep, tier):
         rep.rule("R01.17", "the compatibility predicates answer for the tree as it is: every function that takes is_bipartitions_updated - Tree.is_compatible_with_bipartition among them - declares it with the default False (C04 R04.10), so a call with default arguments re-encodes instead of trusting an encoding cached before the tree was edited")
         nb = borrow(index, rep, "C04", {"R04.10"}, "R01.17")
         rep.floor("R01.17", "borrowed obligations", 20, nb)
+
+    # ---- R01.18 the number of members is not the width of a bitmask
+    with rep.section("R01.18"):
+        rep.rule("R01.18", "the number of members is not the width of a bitmask: in the tree model, the namespace and the tree collections no shift (`x >> n`, `1 << n`) takes its amount from `len(<taxon namespace>)` - bit positions are accession indices, which exceed the member count as soon as a taxon was removed, so a mask of current members would be judged to reference taxa outside the namespace")
+        n18 = 0
+        for m in ("dendropy.datamodel.treemodel._tree", "dendropy.datamodel.treemodel._bipartition", "dendropy.datamodel.taxonmodel", "dendropy.datamodel.treecollectionmodel", "dendropy.calculate.treecompare"):
+            for fi in index.functions_in_module(m):
+                sized = {norm(st.targets[0]) for st in walk_no_nested(fi.node) if isinstance(st, ast.Assign) and len(st.targets) == 1 and isinstance(st.value, ast.Call) and call_name(st.value) == "len" and st.value.args
+                         and ("taxon_namespace" in norm(st.value.args[0]) or norm(st.value.args[0]) in ("self._taxa", "self"))}
+                for x in ast.walk(fi.node):
+                    if isinstance(x, ast.BinOp) and isinstance(x.op, (ast.LShift, ast.RShift)):
+                        n18 += 1
+                        amt = x.right
+                        by_len = (isinstance(amt, ast.Name) and amt.id in sized) or any(isinstance(c, ast.Call) and call_name(c) == "len" and c.args and ("taxon_namespace" in norm(c.args[0]) or norm(c.args[0]) in ("self._taxa",)) for c in ast.walk(amt))
+                        rep.check(not by_len, "R01.18", fi.qualname, "shift by the number of members: `%s`" % norm(x)[:50], fn_where(fi, x), "%s: `%s`" % (fi.name, norm(x)[:40]),
+                                  "%s computes `%s`, shifting by the number of members of the namespace: bit positions are accession indices and are never re-used, so after a removal the bits of the members admitted last lie beyond that width - a valid split over the current members is rejected (or cut off) although every taxon it names is in the namespace" % (fi.qualname, norm(x)[:60]))
+        rep.floor("R01.18", "shifts in the bitmask code", 2, n18)
+
+    # ---- R01.19 a bipartition handed in by the caller is compared, not hashed
+    with rep.section("R01.19"):
+        rep.rule("R01.19", "a bipartition handed in by the caller is compared, not hashed: where a method of Tree tests a bipartition PARAMETER for membership, the container is the encoding list (or another sequence) - not a dictionary / set keyed by bipartitions (`bipartition_edge_map`, `set(...)`): Bipartition.__hash__ asserts that the object is frozen, and query bipartitions built with the default constructor or taxa_bipartition() are mutable, so the predicate would die with AssertionError instead of answering")
+        n19 = 0
+        for fi in index.methods_of(TREE):
+            bp = [p_ for p_ in fi.params if "bipartition" in p_ and p_ != "self" and not p_.startswith("is_")]
+            if not bp:
+                continue
+            for x in ast.walk(fi.node):
+                if isinstance(x, ast.Compare) and len(x.ops) == 1 and isinstance(x.ops[0], (ast.In, ast.NotIn)) and isinstance(x.left, ast.Name) and x.left.id in bp:
+                    n19 += 1
+                    c_ = x.comparators[0]
+                    hashed = (isinstance(c_, ast.Attribute) and (c_.attr.endswith("_map") or c_.attr.endswith("_set") or c_.attr.endswith("_dict"))) or (isinstance(c_, ast.Call) and call_name(c_) in ("set", "frozenset", "dict"))
+                    rep.check(not hashed, "R01.19", fi.qualname, "`%s` looks the query up by hash" % norm(x)[:60], fn_where(fi, x), "%s: `%s` scans a sequence" % (fi.name, norm(x)[:50]),
+                              "%s evaluates `%s`: the container is keyed by bipartitions, so the test hashes the caller's object, and Bipartition.__hash__ asserts `not self.is_mutable` - for a query built with Bipartition(...) defaults or namespace.taxa_bipartition() (both mutable) the compatibility predicate raises AssertionError: Bipartition is mutable" % (fi.qualname, norm(x)[:60]))
+        rep.floor("R01.19", "membership tests on a bipartition parameter", 1, n19)
